@@ -16,6 +16,16 @@ Cases are *pairs of experiments differing in exactly one aspect* (or one experim
   collision       executable/arguments pairs whose separator-less serialisations coincide (known finding)
 Oracle (property text): relevant => hashes differ, irrelevant => equal and present, missing => no hash,
 produced-content => fuzzy equal, producer change => fuzzy hash of every downstream component changes.
+
+Histories (one experiment, one process): the files a graph consumes are modified on the disk — rewritten in place
+or through os.replace with other bytes of the same / another length, with the old modification time restored
+exactly, moved inside the same second, later, earlier; two files exchanged by renames; removed and re-created;
+touched; a new Experiment object created over the same instance directory — and after every step every hash is
+recomputed (memoization_reset on every node, evaluation order optionally shuffled).  Oracle: at any two moments of a
+history a node has the same strong (fuzzy) hash if the files it depends on have the same contents (fuzzy: produced
+files only need to exist) at both moments, and different hashes if the multiset of (contents, method) of the files
+it consumes differs; no hash while a consumed file is missing; the fuzzy hash moves with the producers'.
+Model: Hash.observeHistory (Model/HashFs.lean: the hash is a function of the current file system, the only state).
 """
 from __future__ import annotations
 
@@ -132,118 +142,203 @@ def comp_of_node(spec, stage, name):
     return best, int(name[len(spec["comps"][best]["name"]):])
 
 
+class World:
+    """One real experiment built from a specification; stays alive so that its files can be modified and its
+    hashes observed repeatedly (histories)."""
+
+    def __init__(self, spec, tmp):
+        G, TU, _yaml, nx = _imports()
+        self.spec = spec
+        root = os.path.join(tmp, spec.get("loc") or "w")
+        os.makedirs(root, exist_ok=True)
+        inputs = {}
+        data = {}
+        for c in spec["comps"]:
+            for r in c["refs"]:
+                if r["kind"] == "input":
+                    inputs[r["file"]] = r["content"]
+                elif r["kind"] == "data":
+                    data["data/" + r["file"]] = r["content"]
+        indir = os.path.join(root, "in-%d" % len(os.listdir(root)))
+        os.makedirs(indir)
+        paths = []
+        for fn, content in sorted(inputs.items()):
+            p = os.path.join(indir, fn)
+            with open(p, "w") as fh:
+                fh.write(content)
+            paths.append(p)
+        cwd = os.getcwd()
+        try:
+            exp = TU.experiment_from_flowir(flowir_of(spec), root, extra_files=data, inputs=paths or None,
+                                            checkExecutables=False)
+        finally:
+            os.chdir(cwd)
+        self.inst = exp.instanceDirectory.location
+        self._adopt(exp)
+        g, order, graph = self.g, self.order, self.graph
+        # produced files
+        for n in order:
+            node = g.nodes[n]
+            cid = node["componentSpecification"].identification
+            ci, _rep = comp_of_node(spec, cid.stageIndex, cid.componentName)
+            wd = node["componentInstance"].directory
+            for fn, content in (spec["comps"][ci].get("out") or {}).items():
+                if content is None:
+                    continue
+                with open(os.path.join(wd, fn), "w") as fh:
+                    fh.write(content)
+        # removed inputs
+        for n in order:
+            cs = g.nodes[n]["componentSpecification"]
+            ci, _rep = comp_of_node(spec, cs.identification.stageIndex, cs.identification.componentName)
+            for r in spec["comps"][ci]["refs"]:
+                if r.get("missing") and r["kind"] in ("input", "data"):
+                    for d in cs.dataReferences:
+                        if d.absoluteReference == ref_spelling(spec, r) or d.relativeReference == ref_spelling(spec, r):
+                            loc = d.location(graph)
+                            if os.path.isfile(loc):
+                                os.remove(loc)
+        if spec.get("mtime"):
+            for dp, _dn, fns in os.walk(self.inst):
+                for fn in fns:
+                    try:
+                        os.utime(os.path.join(dp, fn), (spec["mtime"], spec["mtime"]))
+                    except OSError:
+                        pass
+
+    def _adopt(self, exp):
+        _G, _TU, _yaml, nx = _imports()
+        self.exp = exp
+        self.graph = exp.experimentGraph
+        self.g = self.graph.graph
+        self.order = list(nx.lexicographical_topological_sort(self.g))
+        self.index = {n: i for i, n in enumerate(self.order)}
+
+    def reload(self):
+        """a new Experiment object (new graph, new ComponentSpecification objects) over the same instance directory"""
+        import experiment.model.data as D
+        cwd = os.getcwd()
+        try:
+            exp = D.Experiment.experimentFromInstance(self.inst)
+            exp.validateExperiment(checkExecutables=False)
+        finally:
+            os.chdir(cwd)
+        self._adopt(exp)
+
+    def sym(self, path):
+        """instance directory -> $I"""
+        path = os.path.normpath(path)
+        inst = os.path.normpath(self.inst)
+        if path == inst or path.startswith(inst + os.sep):
+            return "$I" + path[len(inst):]
+        return path
+
+    def paths_of(self, fid):
+        """file id of the specification -> real paths (one per replica of the producer for produced files)"""
+        if fid[0] in ("input", "data"):
+            return [os.path.join(self.inst, fid[0], fid[1])]
+        res = []
+        for n in self.order:
+            node = self.g.nodes[n]
+            cid = node["componentSpecification"].identification
+            ci, _rep = comp_of_node(self.spec, cid.stageIndex, cid.componentName)
+            if ci == fid[1]:
+                res.append(os.path.join(node["componentInstance"].directory, fid[2]))
+        return res
+
+    def observe(self, order_seed=None, symbolic=False):
+        """resets every cached hash and recomputes strong + fuzzy hashes of every node from what is on the disk now"""
+        spec, g, order, graph, index = self.spec, self.g, self.order, self.graph, self.index
+        for n in order:
+            g.nodes[n]["componentSpecification"].memoization_reset()
+        evals = [(n, which) for n in order for which in ("strong", "fuzzy")]
+        if order_seed is not None:
+            import random
+            random.Random(order_seed).shuffle(evals)
+        got = {}
+        for n, which in evals:
+            cs = g.nodes[n]["componentSpecification"]
+            got[(n, which)] = cs.memoization_hash if which == "strong" else cs.memoization_hash_fuzzy
+        nodes = []
+        mcomps = []
+        scomps = []
+        infos = {}
+        contents = set()
+        fs = {}
+        for n in order:
+            cs = g.nodes[n]["componentSpecification"]
+            cid = cs.identification
+            ci, rep = comp_of_node(spec, cid.stageIndex, cid.componentName)
+            sc = spec["comps"][ci]
+            key = "%d" % ci if rep is None else "%d.%d" % (ci, rep)
+            nodes.append({"key": key, "id": n, "strong": got[(n, "strong")], "fuzzy": got[(n, "fuzzy")]})
+            infos[key] = cs.memoization_info
+            refs = []
+            srefs = []
+            for d in cs.dataReferences:
+                pid = d.producerIdentifier.identifier
+                loc = d.location(graph)
+                content = None
+                if os.path.isfile(loc):
+                    with open(loc) as fh:
+                        content = fh.read()
+                    contents.add(content)
+                t = {"abs": d.absoluteReference, "rel": d.relativeReference, "method": d.method,
+                     "fileRef": d.fileRef or ""}
+                st = dict(t)
+                if pid in g.nodes:
+                    st["loc"] = {"kind": "produced", "p": index[pid], "path": self.sym(loc)}
+                    if os.path.isdir(loc) or (d.fileRef is None and d.method != "output"):
+                        t.update(kind="prodDir", p=index[pid])
+                    else:
+                        t.update(kind="prodFile", p=index[pid], content=content)
+                else:
+                    st["loc"] = {"kind": "direct", "path": self.sym(loc)}
+                    if os.path.isdir(loc):
+                        t.update(kind="dir")
+                    else:
+                        t.update(kind="file", content=content)
+                refs.append(t)
+                srefs.append(st)
+                if symbolic:
+                    fs[self.sym(loc)] = fs_node(loc)
+            replica = cs.customAttributes.get("replica")
+            b = dict(sc.get("backend") or {"kind": "local"})
+            common = {"name": cid.componentName, "stage": cid.stageIndex, "location": "$I",
+                      "mtime": int(spec.get("mtime") or 0),
+                      "replica": int(replica) if replica is not None else None, "exe": sc["exe"],
+                      "args": cs.commandDetails.get("arguments", ""),
+                      "backend": {"kind": b.get("kind", "local"), "image": b.get("image")}}
+            mcomps.append(dict(common, refs=refs))
+            scomps.append(dict(common, refs=srefs))
+        bps = [[c["stage"], c["name"], c["exe"]] for c in spec["comps"]]
+        model = {"op": "world", "bps": bps, "comps": mcomps, "md5": sorted([c, md5s(c)] for c in contents)}
+        return {"nodes": nodes, "model": model, "infos": infos, "scomps": scomps, "bps": bps, "fs": fs,
+                "contents": contents}
+
+    def close(self):
+        shutil.rmtree(self.inst, ignore_errors=True)
+
+
+def fs_node(path):
+    """what is at a path, for the file-system model (None = nothing)"""
+    if os.path.isdir(path):
+        return {"kind": "dir"}
+    if os.path.isfile(path):
+        st = os.stat(path)
+        with open(path) as fh:
+            return {"kind": "file", "content": fh.read(), "mtime": st.st_mtime_ns, "ino": st.st_ino}
+    return None
+
+
 def build_and_observe(spec, tmp):
     """Builds the real experiment, writes the produced files, returns the observation:
     {"nodes": [{"key", "id", "strong", "fuzzy"}...] (topological order), "model": request for drv-c16, "infos": …}"""
-    G, TU, _yaml, nx = _imports()
-    root = os.path.join(tmp, spec.get("loc") or "w")
-    os.makedirs(root, exist_ok=True)
-    inputs = {}
-    data = {}
-    for c in spec["comps"]:
-        for r in c["refs"]:
-            if r["kind"] == "input":
-                inputs[r["file"]] = r["content"]
-            elif r["kind"] == "data":
-                data["data/" + r["file"]] = r["content"]
-    indir = os.path.join(root, "in-%d" % len(os.listdir(root)))
-    os.makedirs(indir)
-    paths = []
-    for fn, content in sorted(inputs.items()):
-        p = os.path.join(indir, fn)
-        with open(p, "w") as fh:
-            fh.write(content)
-        paths.append(p)
-    cwd = os.getcwd()
+    w = World(spec, tmp)
     try:
-        exp = TU.experiment_from_flowir(flowir_of(spec), root, extra_files=data, inputs=paths or None,
-                                        checkExecutables=False)
+        return w.observe()
     finally:
-        os.chdir(cwd)
-    graph = exp.experimentGraph
-    g = graph.graph
-    order = list(nx.lexicographical_topological_sort(g))
-    index = {n: i for i, n in enumerate(order)}
-    written = []
-    # produced files
-    for n in order:
-        node = g.nodes[n]
-        cid = node["componentSpecification"].identification
-        ci, _rep = comp_of_node(spec, cid.stageIndex, cid.componentName)
-        wd = node["componentInstance"].directory
-        for fn, content in (spec["comps"][ci].get("out") or {}).items():
-            if content is None:
-                continue
-            with open(os.path.join(wd, fn), "w") as fh:
-                fh.write(content)
-            written.append(os.path.join(wd, fn))
-    # removed inputs
-    for n in order:
-        cs = g.nodes[n]["componentSpecification"]
-        ci, _rep = comp_of_node(spec, cs.identification.stageIndex, cs.identification.componentName)
-        for r in spec["comps"][ci]["refs"]:
-            if r.get("missing") and r["kind"] in ("input", "data"):
-                for d in cs.dataReferences:
-                    if d.absoluteReference == ref_spelling(spec, r) or d.relativeReference == ref_spelling(spec, r):
-                        loc = d.location(graph)
-                        if os.path.isfile(loc):
-                            os.remove(loc)
-    if spec.get("mtime"):
-        for dp, _dn, fns in os.walk(exp.instanceDirectory.location):
-            for fn in fns:
-                try:
-                    os.utime(os.path.join(dp, fn), (spec["mtime"], spec["mtime"]))
-                except OSError:
-                    pass
-    for n in order:
-        g.nodes[n]["componentSpecification"].memoization_reset()
-    nodes = []
-    mcomps = []
-    infos = {}
-    contents = set()
-    for n in order:
-        cs = g.nodes[n]["componentSpecification"]
-        cid = cs.identification
-        ci, rep = comp_of_node(spec, cid.stageIndex, cid.componentName)
-        sc = spec["comps"][ci]
-        strong = cs.memoization_hash
-        fuzzy = cs.memoization_hash_fuzzy
-        key = "%d" % ci if rep is None else "%d.%d" % (ci, rep)
-        nodes.append({"key": key, "id": n, "strong": strong, "fuzzy": fuzzy})
-        infos[key] = cs.memoization_info
-        refs = []
-        for d in cs.dataReferences:
-            pid = d.producerIdentifier.identifier
-            loc = d.location(graph)
-            content = None
-            if os.path.isfile(loc):
-                with open(loc) as fh:
-                    content = fh.read()
-                contents.add(content)
-            t = {"abs": d.absoluteReference, "rel": d.relativeReference, "method": d.method,
-                 "fileRef": d.fileRef or ""}
-            if pid in g.nodes:
-                if os.path.isdir(loc) or (d.fileRef is None and d.method != "output"):
-                    t.update(kind="prodDir", p=index[pid])
-                else:
-                    t.update(kind="prodFile", p=index[pid], content=content)
-            else:
-                if os.path.isdir(loc):
-                    t.update(kind="dir")
-                else:
-                    t.update(kind="file", content=content)
-            refs.append(t)
-        replica = cs.customAttributes.get("replica")
-        b = dict(sc.get("backend") or {"kind": "local"})
-        mcomps.append({"name": cid.componentName, "stage": cid.stageIndex, "location": "$I",
-                       "mtime": int(spec.get("mtime") or 0),
-                       "replica": int(replica) if replica is not None else None, "exe": sc["exe"],
-                       "args": cs.commandDetails.get("arguments", ""), "refs": refs,
-                       "backend": {"kind": b.get("kind", "local"), "image": b.get("image")}})
-    model = {"op": "world", "bps": [[c["stage"], c["name"], c["exe"]] for c in spec["comps"]], "comps": mcomps,
-             "md5": sorted([c, md5s(c)] for c in contents)}
-    shutil.rmtree(exp.instanceDirectory.location, ignore_errors=True)
-    return {"nodes": nodes, "model": model, "infos": infos}
+        w.close()
 
 
 def model_worlds(ctx, requests):
@@ -266,11 +361,12 @@ def model_worlds(ctx, requests):
         for i, o in zip(todo, outs):
             answers[i] = o
             changed = False
-            for side in ("strong", "fuzzy"):
-                for e in o[side]:
-                    if e is not None and e["ser"] not in tables[i]:
-                        tables[i][e["ser"]] = md5s(e["ser"])
-                        changed = True
+            for ob in (o["obs"] if "obs" in o else [o]):
+                for side in ("strong", "fuzzy"):
+                    for e in ob[side]:
+                        if e is not None and e["ser"] not in tables[i]:
+                            tables[i][e["ser"]] = md5s(e["ser"])
+                            changed = True
             if changed:
                 nxt.append(i)
         todo = nxt
@@ -865,6 +961,416 @@ def check_strings(ctx, rng, n):
                     {"out": outs[len(cases) + i]["out"]}, {"out": want})
 
 
+# ----------------------------------------------------------------------------------------
+# histories: one experiment, its files change, the hashes are recomputed
+# ----------------------------------------------------------------------------------------
+# case = {"kind": "history", "spec": spec, "steps": [step...]}
+# file id = ["input", fn] | ["data", fn] | ["out", comp index, fn]
+# step = {"op": "write", "file": fid, "content": str, "how": "inplace"|"replace", "mtime": MT}
+#      | {"op": "touch", "file": fid, "mtime": MT} | {"op": "touch-all", "t": seconds}
+#      | {"op": "remove", "file": fid} | {"op": "swap", "a": fid, "b": fid, "mtime": "keep"|"equalise"}
+#      | {"op": "reload"}            every step may carry "order": seed of the order in which hashes are evaluated
+# MT = "keep" (exactly the time the file had) | "same-second" | "later" | "earlier" | "now"
+
+MTIMES = ["keep", "same-second", "later", "earlier", "now"]
+
+
+def direct_files(spec, ci):
+    """[(file id, method, produced?)] for the references of component ci that consume a file"""
+    res = []
+    for r in spec["comps"][ci]["refs"]:
+        if r["kind"] in ("input", "data"):
+            res.append(((r["kind"], r["file"]), r["method"], False))
+        elif r["file"] or r["method"] == "output":
+            res.append((("out", r["prod"], r["file"] or "out.stdout"), r["method"], True))
+    return res
+
+
+def dep_files(spec, ci, _seen=None):
+    """every file the hashes of component ci may depend on (its own and those of its producers, transitively)"""
+    seen = _seen if _seen is not None else set()
+    if ci in seen:
+        return set()
+    seen.add(ci)
+    res = {f for f, _m, _p in direct_files(spec, ci)}
+    for r in spec["comps"][ci]["refs"]:
+        if r["kind"] == "comp":
+            res |= dep_files(spec, r["prod"], seen)
+    return res
+
+
+def initial_contents(spec):
+    cur = {}
+    for ci, c in enumerate(spec["comps"]):
+        for r in c["refs"]:
+            if r["kind"] in ("input", "data"):
+                cur[(r["kind"], r["file"])] = None if r.get("missing") else r["content"]
+            elif r["file"] or r["method"] == "output":
+                fn = r["file"] or "out.stdout"
+                cur[("out", r["prod"], fn)] = (spec["comps"][r["prod"]].get("out") or {}).get(fn)
+    return cur
+
+
+def mutate_same_length(rng, content):
+    i = rng.randrange(len(content))
+    ch = rng.choice([c for c in "ABXYZ019" if c != content[i]])
+    return content[:i] + ch + content[i + 1:]
+
+
+def mutate_other_length(rng, content):
+    if content and rng.random() < 0.4:
+        return content[:-1]
+    return content + rng.choice(["!", "\n", "ZZ", "0"])
+
+
+def gen_history(rng):
+    for _ in range(30):
+        spec = gen_world(rng)
+        cur = initial_contents(spec)
+        if cur:
+            break
+    else:
+        return None
+    init = dict(cur)
+    files = sorted(cur, key=repr)
+    multi = {f for f in files if f[0] == "out" and spec["comps"][f[1]].get("replicate")}
+    steps = []
+    nsteps = rng.randint(2, 5)
+    for k in range(nsteps):
+        kinds = ["rewrite"] * 6 + ["revert"] * 2 + ["swap"] * 2 + ["remove", "touch", "touch-all", "reload", "reload"]
+        kind = "rewrite" if k == 0 else rng.choice(kinds)
+        present = [f for f in files if cur[f] is not None]
+        step = None
+        if kind == "rewrite":
+            f = rng.choice(files)
+            old = cur[f]
+            if old is None:
+                new = rng.choice(CONTENTS) if init[f] is None or rng.random() < 0.5 else mutate_same_length(rng, init[f]) \
+                    if init[f] else "restored"
+            elif old and rng.random() < 0.7:
+                new = mutate_same_length(rng, old)
+            else:
+                new = mutate_other_length(rng, old)
+            step = {"op": "write", "file": list(f), "content": new, "how": rng.choice(["inplace", "inplace", "replace"]),
+                    "mtime": rng.choice(["keep", "keep", "keep", "same-second", "later", "earlier", "now"])}
+            cur[f] = new
+        elif kind == "revert":
+            cands = [f for f in files if cur[f] != init[f] and init[f] is not None]
+            if cands:
+                f = rng.choice(cands)
+                step = {"op": "write", "file": list(f), "content": init[f], "how": rng.choice(["inplace", "replace"]),
+                        "mtime": rng.choice(["keep", "same-second", "later", "now"])}
+                cur[f] = init[f]
+        elif kind == "swap":
+            cands = [(a, b) for a in present for b in present
+                     if repr(a) < repr(b) and cur[a] != cur[b] and a not in multi and b not in multi]
+            same = [(a, b) for a, b in cands if len(cur[a]) == len(cur[b])]
+            if cands:
+                a, b = rng.choice(same or cands)
+                step = {"op": "swap", "a": list(a), "b": list(b), "mtime": rng.choice(["keep", "equalise"])}
+                cur[a], cur[b] = cur[b], cur[a]
+        elif kind == "remove":
+            if present:
+                f = rng.choice(present)
+                step = {"op": "remove", "file": list(f)}
+                cur[f] = None
+        elif kind == "touch":
+            if present:
+                step = {"op": "touch", "file": list(rng.choice(present)),
+                        "mtime": rng.choice(["same-second", "later", "earlier"])}
+        elif kind == "touch-all":
+            step = {"op": "touch-all", "t": 1000000000 + rng.randint(0, 10 ** 8)}
+        if step is None:
+            step = {"op": "reload"}
+        if rng.random() < 0.5:
+            step["order"] = rng.randint(0, 10 ** 6)
+        steps.append(step)
+    return {"kind": "history", "spec": spec, "steps": steps}
+
+
+def _set_mtime(path, mode, st):
+    """st = what os.stat said about the path before the operation (or the last time it existed)"""
+    if mode == "now" or st is None:
+        return
+    sec, frac = divmod(st.st_mtime_ns, 10 ** 9)
+    if mode == "keep":
+        ns = st.st_mtime_ns
+    elif mode == "same-second":
+        ns = sec * 10 ** 9 + (frac + 500000000) % 10 ** 9
+    elif mode == "later":
+        ns = st.st_mtime_ns + 7 * 10 ** 9
+    elif mode == "earlier":
+        ns = st.st_mtime_ns - 3600 * 10 ** 9
+    else:
+        raise ValueError(mode)
+    os.utime(path, ns=(st.st_atime_ns, ns))
+
+
+def apply_step(world, step, last_stat, tracked):
+    """performs the step on the real files; returns the operations of the file-system model that describe it"""
+    ops = []
+
+    def stat_of(p):
+        if os.path.exists(p):
+            last_stat[p] = os.stat(p)
+        return last_stat.get(p)
+
+    def wrote(p):
+        n = fs_node(p)
+        ops.append({"op": "write", "path": world.sym(p), "content": n["content"], "mtime": n["mtime"], "ino": n["ino"]})
+
+    kind = step["op"]
+    if kind == "write":
+        for p in world.paths_of(tuple(step["file"])):
+            st = stat_of(p)
+            if step["how"] == "replace":
+                with open(p + ".new~", "w") as fh:
+                    fh.write(step["content"])
+                os.replace(p + ".new~", p)
+            else:
+                with open(p, "w") as fh:
+                    fh.write(step["content"])
+            _set_mtime(p, step["mtime"], st)
+            wrote(p)
+    elif kind == "touch":
+        for p in world.paths_of(tuple(step["file"])):
+            if os.path.isfile(p):
+                _set_mtime(p, step["mtime"], stat_of(p))
+                ops.append({"op": "touch", "path": world.sym(p), "mtime": os.stat(p).st_mtime_ns})
+    elif kind == "touch-all":
+        for p in tracked:
+            if os.path.isfile(p):
+                os.utime(p, (step["t"], step["t"]))
+                ops.append({"op": "touch", "path": world.sym(p), "mtime": os.stat(p).st_mtime_ns})
+    elif kind == "remove":
+        for p in world.paths_of(tuple(step["file"])):
+            if os.path.isfile(p):
+                stat_of(p)
+                os.remove(p)
+                ops.append({"op": "remove", "path": world.sym(p)})
+    elif kind == "swap":
+        pa, pb = world.paths_of(tuple(step["a"])), world.paths_of(tuple(step["b"]))
+        if len(pa) == 1 and len(pb) == 1 and os.path.isfile(pa[0]) and os.path.isfile(pb[0]):
+            a, b = pa[0], pb[0]
+            sa = stat_of(a)
+            stat_of(b)
+            tmpn = os.path.join(world.inst, "swap.tmp~")
+            for x, y in ((a, tmpn), (b, a), (tmpn, b)):
+                os.rename(x, y)
+                ops.append({"op": "rename", "a": world.sym(x), "b": world.sym(y)})
+            if step["mtime"] == "equalise":
+                for x in (a, b):
+                    os.utime(x, ns=(sa.st_atime_ns, sa.st_mtime_ns))
+                    ops.append({"op": "touch", "path": world.sym(x), "mtime": os.stat(x).st_mtime_ns})
+    elif kind == "reload":
+        world.reload()
+        ops.append({"op": "reload"})
+    else:
+        raise ValueError(kind)
+    return ops
+
+
+def snapshot(world, files):
+    """file id -> tuple of the contents of its paths (None = not there)"""
+    snap = {}
+    for f in files:
+        vals = []
+        for p in world.paths_of(f):
+            if os.path.isfile(p):
+                with open(p) as fh:
+                    vals.append(fh.read())
+            else:
+                vals.append(None)
+        snap[f] = tuple(vals)
+    return snap
+
+
+def run_history(case, tmp):
+    """drives the real code through the history; returns the observations (index 0 = before the first step)"""
+    spec = case["spec"]
+    world = World(spec, tmp)
+    try:
+        files = sorted(initial_contents(spec), key=repr)
+        tracked = sorted({p for f in files for p in world.paths_of(f)})
+        first = world.observe(symbolic=True)
+        fs = dict(first["fs"])
+        for p in tracked:
+            fs.setdefault(world.sym(p), fs_node(p))
+        paths = sorted(fs)
+        last_stat = {}
+        obs = [dict(first, snap=snapshot(world, files), nops=0,
+                    views={world.sym(p): fs_node(p) for p in tracked})]
+        ops = []
+        contents = set(first["contents"])
+        for step in case["steps"]:
+            ops += apply_step(world, step, last_stat, tracked)
+            o = world.observe(order_seed=step.get("order"))
+            contents |= o["contents"]
+            obs.append(dict(o, snap=snapshot(world, files), nops=len(ops),
+                            views={world.sym(p): fs_node(p) for p in tracked}))
+        for n_ in fs.values():
+            if n_ and n_["kind"] == "file":
+                contents.add(n_["content"])
+        for op in ops:
+            if op["op"] == "write":
+                contents.add(op["content"])
+        request = {"op": "history", "bps": first["bps"], "comps": first["scomps"],
+                   "fs": [[p, fs[p]] for p in paths if fs[p] is not None], "ops": ops, "paths": paths,
+                   "md5": sorted([c, md5s(c)] for c in contents)}
+        return {"obs": obs, "request": request, "paths": paths, "files": files}
+    finally:
+        world.close()
+
+
+def present(v):
+    return all(x is not None for x in v)
+
+
+def oracle_history(ctx, case, hist):
+    """Model-independent restatement of the property along one history: the hashes computed at any two moments are
+    related exactly as the contents of the consumed files at those moments are."""
+    spec = case["spec"]
+    obs = hist["obs"]
+    keys = [n["key"] for n in obs[0]["nodes"]]
+    H = [by_key(o) for o in obs]
+    trace = [{"after_step": j - 1, "nodes": o["nodes"], "files": {repr(f): v for f, v in o["snap"].items()}}
+             for j, o in enumerate(obs)]
+
+    reported = set()
+
+    def fail(what, i, j, key, **extra):
+        # one report per kind of failure and history (the first pair of observations / node that shows it)
+        if what in reported and what != "fuzzy-hash-does-not-track-producer":
+            return
+        reported.add(what)
+        ctx.fail(what, case, dict({"observations": [i, j], "node": key, "trace": trace}, **extra))
+
+    def fuzzy_view(snap, f):
+        return snap[f] if f[0] != "out" else tuple(x is not None for x in snap[f])
+
+    for key in keys:
+        ci = int(key.split(".")[0])
+        direct = direct_files(spec, ci)
+        dep = sorted(dep_files(spec, ci), key=repr)
+        for j, o in enumerate(obs):
+            h = H[j].get(key)
+            if h is None:
+                continue
+            if all(present(o["snap"][f]) for f in dep) and (h["strong"] is None or h["fuzzy"] is None):
+                fail("no-hash-although-every-input-is-present", j, j, key)
+            if any(not present(o["snap"][f]) for f, _m, _p in direct) and (h["strong"] is not None or h["fuzzy"] is not None):
+                fail("hash-produced-while-input-missing", j, j, key)
+        for i in range(len(obs)):
+            for j in range(i + 1, len(obs)):
+                a, b = H[i].get(key), H[j].get(key)
+                if a is None or b is None:
+                    continue
+                si, sj = obs[i]["snap"], obs[j]["snap"]
+                if all(si[f] == sj[f] for f in dep) and a["strong"] != b["strong"]:
+                    fail("same-contents-different-strong-hash:history", i, j, key)
+                if all(fuzzy_view(si, f) == fuzzy_view(sj, f) for f in dep) and a["fuzzy"] != b["fuzzy"]:
+                    fail("same-contents-different-fuzzy-hash:history", i, j, key)
+                if not all(present(s[f]) for s in (si, sj) for f in dep):
+                    continue
+                ms = [sorted((repr(s[f]), m) for f, m, _p in direct) for s in (si, sj)]
+                if ms[0] != ms[1] and a["strong"] is not None and a["strong"] == b["strong"]:
+                    fail("different-contents-same-strong-hash:history", i, j, key)
+                mf = [sorted((repr(s[f]), m) for f, m, p in direct if not p) for s in (si, sj)]
+                if mf[0] != mf[1] and a["fuzzy"] is not None and a["fuzzy"] == b["fuzzy"]:
+                    fail("different-contents-same-fuzzy-hash:history", i, j, key)
+                # the fuzzy hash of a component changes when the fuzzy hash of one of its producers changes
+                moved = []
+                for r in spec["comps"][ci]["refs"]:
+                    if r["kind"] == "comp" and any(
+                            H[i][k]["fuzzy"] is not None and H[j][k]["fuzzy"] is not None
+                            and H[i][k]["fuzzy"] != H[j][k]["fuzzy"] for k in keys_of(obs[0], r["prod"])):
+                        moved.append(r)
+                if moved and a["fuzzy"] is not None and a["fuzzy"] == b["fuzzy"]:
+                    fail("fuzzy-hash-does-not-track-producer", i, j, key, consumer=ci, refs_to_changed_producers=[
+                        {"file": r["file"], "method": r["method"], "prod": r["prod"]} for r in moved])
+
+
+def canon_view(n):
+    if n is None:
+        return None
+    return "dir" if n["kind"] == "dir" else {"content": n["content"]}
+
+
+def check_histories(ctx, cases):
+    tmp = tempfile.mkdtemp(prefix="c16h-")
+    done = []
+    try:
+        for case in cases:
+            try:
+                hist = run_history(case, tmp)
+            except Exception as exc:  # the generated package was rejected: not a case of this property
+                ctx.tag("rejected:" + type(exc).__name__)
+                if case.get("must_build"):
+                    ctx.fail("corpus-case-does-not-build", case, {"error": repr(exc)[:400]})
+                continue
+            done.append((case, hist))
+    finally:
+        shutil.rmtree(tmp, ignore_errors=True)
+    answers = model_worlds(ctx, [h["request"] for _c, h in done])
+    for idx, (case, hist) in enumerate(done):
+        spec = case["spec"]
+        referenced = set()
+        for ci in range(len(spec["comps"])):
+            referenced |= {f for f, _m, _p in direct_files(spec, ci)}
+        changing = [s for s in case["steps"] if s["op"] in ("write", "remove", "swap")]
+        tags = ["history", "comps:%d" % len(spec["comps"]), "steps:%d" % len(case["steps"])]
+        for s_ in case["steps"]:
+            t = "step:" + s_["op"]
+            if s_["op"] == "write":
+                t += ":" + s_["how"] + ":mtime-" + s_["mtime"]
+            elif s_["op"] in ("touch", "swap"):
+                t += ":mtime-" + s_["mtime"]
+            tags.append(t)
+        for i in range(1, len(hist["obs"])):
+            s_ = case["steps"][i - 1]
+            if s_["op"] == "write":
+                f = tuple(s_["file"])
+                before, after = hist["obs"][i - 1]["snap"][f], hist["obs"][i]["snap"][f]
+                if present(before) and before != after and [len(x) for x in before] == [len(x) for x in after]:
+                    tags.append("rewrite-same-length" + ("-same-mtime" if s_["mtime"] == "keep" else ""))
+        ctx.case(case, nontrivial=bool(changing) and bool(referenced), tags=sorted(set(tags)))
+        oracle_history(ctx, case, hist)
+        if answers is None:
+            continue
+        ans = answers[idx]["obs"]
+        for j, o in enumerate(hist["obs"]):
+            m = ans[o["nops"]]
+            ctx.compare("memoization_hash/_fuzzy of every node after every step of a history == Hash.observeHistory "
+                        "(hashes of the current file system; md5 := hashlib table)",
+                        {"which": "after-step-%d" % (j - 1), "case": case}, model_out(o, m), impl_out(o))
+            mv = dict(zip(hist["paths"], m["views"]))
+            ctx.compare("files after every step of a history == Hash.view of Hash.states (write/touch/remove/rename)",
+                        {"which": "views-after-step-%d" % (j - 1), "case": case},
+                        {p: mv[p] for p in o["views"]}, {p: canon_view(n) for p, n in o["views"].items()})
+
+
+def corpus_histories():
+    """a produced file and an input rewritten in place with other bytes of the same length and the same time;
+    a new experiment object; the original bytes written back"""
+    def link(p, f="out.txt", m="ref"):
+        return {"kind": "comp", "file": f, "method": m, "prod": p, "abs": False, "content": None, "missing": False}
+    inp = {"kind": "input", "file": "a.txt", "method": "copy", "prod": None, "abs": False, "content": "AAA",
+           "missing": False}
+    spec = {"comps": [_comp("gen", 0, "/bin/echo", [[{"l": "hello"}]], out={"out.txt": "result=1111\n"}),
+                      _comp("first", 0, "/bin/cat", [[{"r": 0}]], [link(0)], out={"out.txt": "1"}),
+                      _comp("second", 0, "/bin/cat", [[{"r": 0}]], [link(0), dict(inp)]),
+                      _comp("last", 1, "/bin/cat", [[{"l": "x="}, {"r": 0}]], [dict(link(1, f=None), abs=True)])],
+            "order": None, "mtime": None, "loc": "w"}
+    steps = [{"op": "write", "file": ["out", 0, "out.txt"], "content": "result=2222\n", "how": "inplace", "mtime": "keep"},
+             {"op": "write", "file": ["input", "a.txt"], "content": "ABA", "how": "replace", "mtime": "same-second"},
+             {"op": "reload"},
+             {"op": "write", "file": ["out", 0, "out.txt"], "content": "result=1111\n", "how": "inplace", "mtime": "later",
+              "order": 7},
+             {"op": "remove", "file": ["input", "a.txt"]},
+             {"op": "write", "file": ["input", "a.txt"], "content": "AAA", "how": "inplace", "mtime": "keep"}]
+    return [{"kind": "history", "spec": spec, "steps": steps, "must_build": True}]
+
+
 def _comp(name, stage, exe, args, refs=None, out=None, backend=None, replicate=None, aggregate=False):
     return {"name": name, "stage": stage, "exe": exe, "refs": refs or [], "args": args, "out": out or {},
             "backend": backend or {"kind": "local"}, "replicate": replicate, "aggregate": aggregate}
@@ -954,7 +1460,13 @@ def run(ctx):
                 "replication+aggregation; local/kubernetes/lsf/docker backends), aspects: 7 hash-relevant, 7 "
                 "hash-irrelevant, 2 missing-input, 2 twin, collision; non-trivial = the target component has >= 1 "
                 "reference, or the aspect is exe/image/twin/collision; distinct by canonical JSON. Additionally "
-                "info dictionaries for the static serialiser and strings for tokens / word-boundary substitution.")
+                "info dictionaries for the static serialiser and strings for tokens / word-boundary substitution. "
+                "Histories: one real experiment of the same family + 2-5 steps (rewrite a consumed input/data/produced "
+                "file in place or by os.replace with bytes of the same or another length, modification time kept "
+                "exactly / same second / later / earlier / now; write the original bytes back; exchange two files by "
+                "renames; remove; touch one or all files; re-create the Experiment object over the instance), all "
+                "hashes recomputed after every step; non-trivial = some step changes, removes or exchanges a file and "
+                "some component consumes a file.")
     ctx.assumptions = [
         "md5 of the model is a table of hashlib digests filled by the harness (pre-images: file contents and the "
         "serialisations returned by the model); the theorems take md5 as a parameter with Function.Injective md5 as "
@@ -963,6 +1475,10 @@ def run(ctx):
         "read from the real DataReference / ComponentSpecification objects; executables, blueprint table and backends "
         "come from the generated specification",
         "generated arguments contain no %(variable)s, file contents are ASCII text",
+        "histories: a hash is observed after memoization_reset() of every node (or on a freshly created Experiment "
+        "object); the per-object cache of ComponentSpecification between two resets is the documented design and is "
+        "not exercised; the operations of the file-system model (write/touch/remove/rename) are compared with what "
+        "the operating system did to the tracked paths after every step",
     ]
     ctx.trusted.append("C16: hashlib.md5 treated as an injective function (hypothesis of the theorems, not an axiom); "
                        "embeddingFunction (JavaScript) fuzzy hashes, DoWhile placeholders and loopref are not modelled")
@@ -979,6 +1495,13 @@ def run(ctx):
               {"files": [], "command": {"executable": "c", "arguments": "aexecutableb"}, "backend": {}}]
     check_infos(ctx, infos)
     check_strings(ctx, rng, 1500 if quick else 15000)
+    # histories last: the random stream of the parts above is the one earlier versions of this check used
+    histories = corpus_histories()
+    for _ in range(40 if quick else 400):
+        h = gen_history(rng)
+        if h is not None:
+            histories.append(h)
+    check_histories(ctx, histories)
 
 
 def replay(ctx, doc):
@@ -997,6 +1520,10 @@ def replay(ctx, doc):
         case = dict(case)
         case["must_build"] = True
         check_pairs(ctx, [case])
+    elif kind == "history":
+        case = dict(case)
+        case["must_build"] = True
+        check_histories(ctx, [case])
     elif kind == "info":
         check_infos(ctx, [case["info"]])
     elif kind == "info-pair":
